@@ -7,7 +7,7 @@ from ..selftest import Mutant
 
 ID = "C38"
 TECHNIQUE = "sibling-interface agreement over the GitShaMap / CacheUpdater class hierarchy: override sets, arities, dispatch kinds (ast + in-repo MRO)"
-FLOOR = 30
+FLOOR = 58
 CF = "breezy/git/cache.py"
 EXPLANATION = """
 K7 over every concrete subclass of breezy/git/cache.py:GitShaMap and CacheUpdater found in the repository on this run:
